@@ -57,6 +57,8 @@ FRAG_OWNER = {
     'frag/seq_lemmas': None,
     'frag/blocks_dump': 'blocks',
     'frag/blocks_from': 'blocks',
+    'frag/blocks_header': 'blocks',
+    'frag/config_types': None,
     'frag/awriter_body': 'awriter',
     'frag/position_layer': 'raw_pos',
 }
@@ -463,9 +465,12 @@ class Gen:
             first = len(self.lines)
             in_ens = False
             saw_ens = False
+            renamed = False
             for text, ln in sig_lines:
                 if twin:
-                    text = re.sub(r'\bfn ' + re.escape(kv['name']) + r'\b', 'fn ' + kv['name'] + '__twin', text, count=1)
+                    if not renamed and re.search(r'\bfn [A-Za-z_][A-Za-z0-9_]*', text):
+                        text = re.sub(r'\bfn ([A-Za-z_][A-Za-z0-9_]*)', r'fn \1__twin', text, count=1)
+                        renamed = True
                     st = text.strip()
                     if re.match(r'^ensures\b', st):
                         in_ens, saw_ens = True, True
